@@ -133,6 +133,7 @@ static long cancelAt = -1;      // cancel when pointNo reaches this value
 static bool cancelledThisBuild = false;
 static bool sawCycle = false, sawError = false;
 static int deferPct = 100;      // DET: percentage of completions deferred to hook points
+static bool enumMode = false;   // DET: every decision (also defer-or-not) is a logged Choice, for schedule enumeration
 
 static int choose(int n) {      // pick one of n options
   int c;
@@ -227,7 +228,7 @@ struct ScriptTask : Task {
     if (mode == SYNC) { doComplete(pc); return; }
     if (mode == DET) {
       // decision: complete synchronously inside inputsAvailable, or defer to a hook point
-      bool defer = tapePos < tape.size() ? (choose(2) == 1) : ((int)(schedRng() % 100) < deferPct);
+      bool defer = enumMode ? (choose(2) == 1) : ((int)(schedRng() % 100) < deferPct);
       if (!defer) { doComplete(pc); return; }
       pending.push_back(pc); return;
     }
@@ -515,6 +516,7 @@ int main(int argc, char** argv) {
       tape.clear(); tapePos = 0; for (auto& t : split(m["tape"], ',')) tape.push_back(std::stoi(t));
       cancelAt = m.count("cancel") ? std::stol(m["cancel"]) : -1; cancelledThisBuild = false;
       deferPct = m.count("defer") ? std::stoi(m["defer"]) : 100;
+      enumMode = m.count("tape") != 0;
       pointNo = 0; sawCycle = false; sawError = false; pending.clear();
       std::thread canceller;
       if (mode == THR) {
